@@ -261,6 +261,7 @@ func exec(h History) lib.Case {
 	})
 	e := w.e
 	w.evm.ak = &e.App.AccountKeeper
+	w.evm.beacon = common.HexToAddress(beaconAddr)
 	reg := w.k.VerifSwapRegistry()
 	var regTerms []string
 	for _, r := range h.Registry {
@@ -417,6 +418,12 @@ func (w *world) build(op Op) (string, sdk.Msg) {
 				IssueTokenBaseFee: sdk.Coin{Denom: "stake", Amount: sdkmath.NewIntFromBigInt(bigOf(op.Base))}, EnableErc20: op.Enable, Beacon: b}}
 	case "evmmode":
 		return lib.App("EvmMode", z(op.Mode)), nil
+	case "upgrade":
+		impl := "not-hex"
+		if op.Nm >= 0 {
+			impl = common.BytesToAddress([]byte{0xc0, byte(op.Nm)}).Hex()
+		}
+		return lib.App("UpgradeErc20", z(op.A), z(op.Nm)), &v1.MsgUpgradeERC20{Authority: w.addrStr(op.A), Implementation: impl}
 	case "hook":
 		// the contract is the one the token of this min unit is bound to NOW (0: none)
 		_, cid := w.contractOf(op.Min)
